@@ -118,6 +118,7 @@ package parser
 //@ at call append #7 before assert trimRightTag: arg1[0].Type == TrimRightTokenType && arg1[0].Source == "" && pendingR
 //@ at call append #7: pendingR = false
 //@ loop 1 invariant dflts: len(defaults) == 4 && fresh(defaults) && len(delims) == 4 && delims == delims0
+//@ loop 1 invariant callerUntouched: sameold("S$Str")
 //@ loop 1 invariant merged: forall(k, 0, 4, defaults[k] == ite(k < _i && delims0[k] != "", delims0[k], dflt(k)))
 //@ loop 2 invariant pos: cov == p && 0 <= p && p <= len(data) && !pendingL && !pendingR && pe == len(data)
 //@ loop 2 invariant ordered: p == ite(_i > 0, _r[_i-1][1], 0)
